@@ -115,10 +115,13 @@ pub fn braille_mathml(mathml: Element, nav_node_id: &str) -> Result<(String, usi
                 }
             }
             let indicators = &braille[prefix_ch_index..start_index];   // chars to be examined
-            let i_byte_start = start_index - 3 * match braille_code {
+            let n_indicator_chars = match braille_code {
                 "Nemeth" => i_start_nemeth(indicators, first_ch),
                 _ => i_start_ueb(indicators),               // treat all the other like UEB because they probably have similar number and letter prefixes
             };
+            // the indicators can't start before the chars that were examined (e.g., the double cap indicator "⠠⠠" at the start counted as 3 chars)
+            let n_indicator_chars = std::cmp::min(n_indicator_chars, (start_index - prefix_ch_index)/3);
+            let i_byte_start = start_index - 3 * n_indicator_chars;
             if i_byte_start < start_index {
                 // remove old highlight as long as we don't wipe out the end highlight
                 if start_index < end_index {
